@@ -861,6 +861,13 @@ class Engine:
 
     def _check_raise(self, ctx: Ctx, contract: Contract, ns: NS, exc: ExcVal):
         matched = None
+        for xname, cond in getattr(contract, "raises_implies", {}).items():
+            if self.exc_matches(exc, xname):
+                ns.__dict__["exc"] = exc
+                c = self.run_spec(ctx, cond, ns)
+                ctx.oblige("%s/raises#%s" % (short(ctx.func), xname), lift_bool(c), kind="raises",
+                           info={"origin": exc.fields.get("__origin__")})
+                return
         for xname in contract.raises:
             if self.exc_matches(exc, xname):
                 matched = xname
@@ -1752,6 +1759,11 @@ class Engine:
                 pending_raise = True
         if pending_raise:
             raise PathEnd()  # some condition held: a normal return is excluded by the contract
+        for xname, cond in getattr(contract, "raises_implies", {}).items():
+            c = lift_bool(self.run_spec(ctx, cond, ns))
+            if self.feasible(ctx, c) and ctx.choose(2) == 1:
+                ctx.assume(c)
+                raise PyRaise(ExcVal(self.exc_class(xname)))
         for xname in contract.may_raise:
             if ctx.choose(2) == 1:
                 raise PyRaise(ExcVal(self.exc_class(xname)))
